@@ -189,60 +189,7 @@ func NewReverseSuffixSearcher(
 //	2. Reverse DFA from [0,9] finds match start = 0
 //	3. Return [0:9] = "a.txt.txt" (greedy!)
 func (s *ReverseSuffixSearcher) Find(haystack []byte) *Match {
-	if len(haystack) == 0 {
-		return nil
-	}
-
-	// For matchStartZero (exactly `.*literal`) the leftmost match lies on the
-	// first line that holds the literal: same rule as FindAt from position 0.
-	if s.matchStartZero {
-		return s.FindAt(haystack, 0)
-	}
-
-	// For bounded wildcards (e.g., \d+\.\d+\.35), find the FIRST suffix
-	// candidate for leftmost match semantics. LastIndex would give rightmost.
-	firstPos := bytes.Index(haystack, s.suffixBytes)
-	if firstPos == -1 {
-		return nil
-	}
-
-	// Acquire caches once for the entire candidate loop
-	revCache := s.revCachePool.Get().(*lazy.DFACache)
-	fwdCache := s.fwdCachePool.Get().(*lazy.DFACache)
-	defer s.revCachePool.Put(revCache)
-	defer s.fwdCachePool.Put(fwdCache)
-
-	// Try each suffix candidate left-to-right until we find a valid match.
-	// This ensures leftmost semantics for multi-wildcard patterns.
-	pos := firstPos
-	for pos >= 0 && pos+s.suffixLen <= len(haystack) {
-		revEnd := pos + s.suffixLen
-
-		// Use reverse DFA to find match START position
-		matchStart := s.reverseDFA.SearchReverse(revCache, haystack, 0, revEnd)
-		if matchStart >= 0 {
-			// Forward verification: get correct greedy match end.
-			matchEnd := s.forwardDFA.SearchAt(fwdCache, haystack, matchStart)
-			if matchEnd >= 0 {
-				return NewMatch(matchStart, matchEnd, haystack)
-			}
-			// DFA failed — fallback to PikeVM
-			start, end, found := s.pikevm.SearchAt(haystack, matchStart)
-			if found {
-				return NewMatch(start, end, haystack)
-			}
-		}
-
-		// Try next suffix candidate
-		next := bytes.Index(haystack[pos+1:], s.suffixBytes)
-		if next == -1 {
-			break
-		}
-		pos = pos + 1 + next
-	}
-
-	// No valid match found
-	return nil
+	return s.FindAt(haystack, 0)
 }
 
 // FindAt searches for a match starting from position 'at' using suffix prefilter + reverse DFA.
@@ -261,91 +208,13 @@ func (s *ReverseSuffixSearcher) Find(haystack []byte) *Match {
 //   - Reverse DFA verification: O(m) where m is match length
 //   - Anti-quadratic guard ensures total work across all candidates is O(n)
 func (s *ReverseSuffixSearcher) FindAt(haystack []byte, at int) *Match {
-	if at >= len(haystack) {
+	// One implementation of the candidate loop (findIndicesAtImpl) serves Find,
+	// FindAt and FindIndicesAt.
+	start, end, found := s.FindIndicesAt(haystack, at)
+	if !found {
 		return nil
 	}
-
-	searchStart := at
-	minStart := at // Anti-quadratic guard
-
-	// Acquire caches once for the entire candidate loop
-	revCache := s.revCachePool.Get().(*lazy.DFACache)
-	fwdCache := s.fwdCachePool.Get().(*lazy.DFACache)
-	defer s.revCachePool.Put(revCache)
-	defer s.fwdCachePool.Put(fwdCache)
-
-	for {
-		// Find next suffix candidate starting from searchStart
-		pos := s.prefilter.Find(haystack, searchStart)
-		if pos == -1 {
-			return nil
-		}
-
-		// Calculate suffix end position
-		suffixEnd := pos + s.suffixLen
-		if suffixEnd > len(haystack) {
-			suffixEnd = len(haystack)
-		}
-
-		// For unanchored patterns (like .*@suffix), .* cannot cross \n.
-		// Match starts at the beginning of the line containing 'pos'.
-		// For greedy semantics, find the LAST suffix on that line.
-		if s.matchStartZero {
-			// Find start of the line containing the suffix candidate
-			matchLineStart := lineStartBefore(haystack, at, pos)
-			// Find end of this line
-			lineEnd := bytes.IndexByte(haystack[pos:], '\n')
-			var lineEndAbs int
-			if lineEnd == -1 {
-				lineEndAbs = len(haystack)
-			} else {
-				lineEndAbs = pos + lineEnd
-			}
-			// Find LAST suffix on this line for greedy match
-			lastPos := bytes.LastIndex(haystack[matchLineStart:lineEndAbs], s.suffixBytes)
-			if lastPos >= 0 {
-				matchEnd := matchLineStart + lastPos + s.suffixLen
-				if matchEnd > len(haystack) {
-					matchEnd = len(haystack)
-				}
-				return NewMatch(matchLineStart, matchEnd, haystack)
-			}
-			return nil
-		}
-
-		// Use reverse DFA with anti-quadratic guard to find match START position
-		matchStart := s.reverseDFA.SearchReverseLimited(revCache, haystack, at, suffixEnd, minStart)
-		if matchStart >= 0 {
-			// Forward verification: get correct greedy match end (Issue #124)
-			matchEnd := s.forwardDFA.SearchAt(fwdCache, haystack, matchStart)
-			if matchEnd >= 0 {
-				return NewMatch(matchStart, matchEnd, haystack)
-			}
-			// DFA failed — fallback to PikeVM
-			fwdStart, fwdEnd, found := s.pikevm.SearchAt(haystack, matchStart)
-			if found {
-				return NewMatch(fwdStart, fwdEnd, haystack)
-			}
-			return nil
-		}
-		if matchStart == lazy.SearchReverseLimitedQuadratic {
-			// Quadratic behavior detected - fall back to PikeVM
-			start, end, found := s.pikevm.SearchAt(haystack, at)
-			if found {
-				return NewMatch(start, end, haystack)
-			}
-			return nil
-		}
-
-		// Update anti-quadratic guard
-		minStart = suffixEnd
-
-		// Try next candidate
-		searchStart = pos + 1
-		if searchStart >= len(haystack) {
-			return nil
-		}
-	}
+	return NewMatch(start, end, haystack)
 }
 
 // FindIndicesAt returns match indices starting from position 'at' - zero allocation version.
@@ -413,11 +282,18 @@ func (s *ReverseSuffixSearcher) findIndicesAtImpl(haystack []byte, at int, fwdCa
 
 		matchStart := s.reverseDFA.SearchReverseLimited(revCache, haystack, at, suffixEnd, minStart)
 		if matchStart >= 0 {
-			matchEnd := s.forwardDFA.SearchAt(fwdCache, haystack, matchStart)
-			if matchEnd >= 0 {
-				return matchStart, matchEnd, true
+			// A match ends at this suffix occurrence, so the haystack matches. It
+			// need not be the leftmost match: one that starts earlier may end at a
+			// LATER occurrence ([a-z]+(?:.*-)?end on "x-bend-end": [2 6] ends at
+			// the first "end", the leftmost match [0 10] at the second). The
+			// forward DFA searched from 'at' ends exactly at the end of the
+			// leftmost-first match, and the reverse DFA then gives its start.
+			if matchEnd := s.forwardDFA.SearchAt(fwdCache, haystack, at); matchEnd >= 0 {
+				if start := s.reverseDFA.SearchReverse(revCache, haystack, at, matchEnd); start >= 0 {
+					return start, matchEnd, true
+				}
 			}
-			return s.pikevm.SearchAt(haystack, matchStart)
+			return s.pikevm.SearchAt(haystack, at)
 		}
 		if matchStart == lazy.SearchReverseLimitedQuadratic {
 			return s.pikevm.SearchAt(haystack, at)
